@@ -177,7 +177,10 @@ func trxHashPathOKUp(w *World, fn *ssa.Function, vpath, p string, up int) bool {
 	if trxHashPathOK(fn, vpath, p) {
 		return true
 	}
-	if up <= 0 || fn.Parent() != nil || fn.Object() == nil || fn.Object().Exported() {
+	if fn.Parent() != nil { // function literal: captured variables keep their names in the enclosing function
+		return trxHashPathOKUp(w, fn.Parent(), vpath, p, up)
+	}
+	if up <= 0 || fn.Object() == nil || fn.Object().Exported() {
 		return false
 	}
 	callers := staticCallers(w, fn)
